@@ -153,10 +153,15 @@ pub fn check_action(action: &Action) -> Vec<(String, String)> {
     match serde_json::from_str::<Action>(&su) {
         Err(e) => out.push(("used-action-json-does-not-deserialise".into(), format!("{e}: {su}"))),
         Ok(ru) => {
-            let o1 = obs_ext(&used, 404, &base_headers(), PROBE_BODY, false);
-            let o2 = obs_ext(&ru, 404, &base_headers(), PROBE_BODY, false);
-            if o1 != o2 {
-                out.push(("behaviour-differs-after-roundtrip:used-action".into(), format!("{o1} vs {o2}; json {su}")));
+            // the restored copy continues where the original stopped, for the same code AND for others (what was applied so far
+            // is part of the action's state)
+            for c in [404u16, 200, 0, 500] {
+                let o1 = obs_ext(&used, c, &base_headers(), PROBE_BODY, false);
+                let o2 = obs_ext(&ru, c, &base_headers(), PROBE_BODY, false);
+                if o1 != o2 {
+                    out.push(("behaviour-differs-after-roundtrip:used-action".into(), format!("after get_status_code(0) and filter_headers(404), continuing with code {c}: {o1} vs {o2}; json {su}")));
+                    break;
+                }
             }
         }
     }
@@ -276,6 +281,15 @@ pub fn extended_request(probe: &crate::universe::Probe, rc: &RouterConfig, ext: 
         6 => r.created_at = r.created_at.map(|t| t - chrono::Duration::nanoseconds(1)),
         7 => r.created_at = r.created_at.map(|t| t + chrono::Duration::microseconds(999_600)),
         8 => r.created_at = r.created_at.map(|t| t + chrono::Duration::nanoseconds(999_999_999)),
+        // many headers: 130 / 1 100 fillers BEFORE the probe's own headers (the ones the rules look at come last)
+        9 | 10 => {
+            let own: Vec<Header> = r.headers.clone();
+            r.headers.clear();
+            for i in 0..(if ext == 9 { 130 } else { 1100 }) {
+                r.headers.push(Header { name: format!("F{i}"), value: "filler".into() });
+            }
+            r.headers.extend(own);
+        }
         _ => {}
     }
     r
@@ -411,7 +425,7 @@ pub fn run(tier: Tier) -> i32 {
         let probes = w.probes(0, &around);
         par_range(ctx.threads, probes.len(), |pi| {
             let probe = w.space.probe(&probes[pi]);
-            let exts: Vec<u8> = if pi % 5 == 0 { vec![0, 1, 2, 3, 4, 5, 6, 7, 8] } else { vec![0, 5, 6, 7] };
+            let exts: Vec<u8> = if pi % 5 == 0 { vec![0, 1, 2, 3, 4, 5, 6, 7, 8, 9] } else if pi % 7 == 0 { vec![0, 5, 6, 7, 9, 10] } else { vec![0, 5, 6, 7] };
             for ext in exts {
                 let req = extended_request(&probe, &rc, ext);
                 ctx.eval(1);
